@@ -128,6 +128,7 @@ class CW:
         return self.tr.get((p, t), False)
 
     def in_agg(self, p, a):
+        # aggregate numbers that were never created (e.g. 9) have no members
         return self.ag.get((p, a), False)
 
     def aggs_of(self, p):
